@@ -132,7 +132,7 @@ def _stratify_circuit(
     for moment in circuit:
         # Identify the new time indices that operations should be moved into.
         ignored_ops = []
-        op_time_indices = {}
+        op_time_indices: list[tuple[cirq.Operation, int]] = []
         for op in moment:
             # Identify the earliest moment that can accommodate this op.
             min_time_index_for_op = circuits.circuit.get_earliest_accommodating_moment_index(
@@ -145,23 +145,23 @@ def _stratify_circuit(
                 op_class = _get_op_class(op, classifiers)
             else:
                 op_class = len(classifiers)
-                ignored_ops.append(op)
+                ignored_ops.append(len(op_time_indices))
                 min_time_index_for_op = max(min_time_index_for_op, last_ignored_ops_time_index + 1)
 
             # Identify the time index to place this operation into.
             time_index = (min_time_index_for_op // num_classes) * num_classes + op_class
             if time_index < min_time_index_for_op:
                 time_index += num_classes
-            op_time_indices[op] = time_index
+            op_time_indices.append((op, time_index))
 
         # Assign ignored operations to the same moment.
         if ignored_ops:
-            last_ignored_ops_time_index = max(op_time_indices[op] for op in ignored_ops)
-            for op in ignored_ops:
-                op_time_indices[op] = last_ignored_ops_time_index
+            last_ignored_ops_time_index = max(op_time_indices[i][1] for i in ignored_ops)
+            for i in ignored_ops:
+                op_time_indices[i] = (op_time_indices[i][0], last_ignored_ops_time_index)
 
         # Move the operations into their assigned moments.
-        for op, time_index in op_time_indices.items():
+        for op, time_index in op_time_indices:
             if time_index >= len(new_moments):
                 new_moments += [[] for _ in range(num_classes)]
             new_moments[time_index].append(op)
